@@ -17,6 +17,7 @@ type genFile struct {
 var files = []genFile{
 	{"Numeric.lean", genNumeric},
 	{"NumericSimp.lean", genNumericSimp},
+	{"Adapters.lean", genAdapters},
 }
 
 func main() {
